@@ -6,6 +6,15 @@ import os
 HERE = os.path.dirname(os.path.dirname(os.path.abspath(__file__)))
 
 CHECKS = {
+    "C14": dict(
+        category="exploration",
+        technique="exhaustive enumeration (256 bytes, 0x110000 code points) + Hypothesis strings against Python's koi8-r/ASCII and the round-trip law",
+        text="Every byte value and every Unicode code point is pushed through the codec and compared with ASCII, Python's KOI8-R and the "
+             "round-trip law; every table character is also assembled through .ascii and 'c. Random strings with offenders at drawn "
+             "positions check the error position and that the assembler turns the refusal into an invalid-character error. The byte and "
+             "code point domains are finite and enumerated completely.",
+        note="Trusted: Python's koi8-r codec, the single documented alias U+00A4->0x24, the in-process driver.",
+        design="4/C14"),
     "C15": dict(
         category="exploration",
         technique="exhaustive enumeration + Hypothesis property-based testing against an independent RADIX-50 packer/unpacker",
